@@ -108,7 +108,7 @@ def run(ctx):
                 bad = any(known(v) and v.types <= {"str"} and "rendered" in v.flags for v in vals)
                 ctx.check("C18.render", m, ev.node, not bad,
                           f"{m.qual} compares / searches the rendered text of a value", site=f"{m.qual}: {norm(ev.node)[:70]}")
-    if n_sites < 45:
+    if n_sites < 30:
         ctx.broken("C18.render", f"only {n_sites} string search/compare sites typed")
 
     ckl_first_element(ctx, model)
